@@ -256,7 +256,19 @@ StartSeg(M, F, t, v, u, isExc) ==
       sb == [e |-> "SegBegin", t |-> t, k |-> k, v |-> v, u |-> u, a |-> M.active, xs |-> <<>>]
   IN IF isExc /\ ~prevCatch
      THEN BodyRaise(SegEndEv(Ev(M1, sb), t, k, 5, Val("N", 0, <<>>)), F, t, v, u)
-     ELSE LET M2 == Ev([M1 EXCEPT !.running = @ \cup {t}], sb)
+     ELSE LET \* try/except around the with-blocks entered in the previous segment: the caught exception leaves them first
+              cs == M1.tk[t].ctxs
+              leave == IF isExc /\ k > 1 /\ P.tasks[t].segs[k - 1].term.cscope = 1
+                       THEN Cardinality({i \in 1..Len(cs) : M1.cx[cs[i]] = k - 1}) ELSE 0
+              RECURSIVE Leave(_, _)
+              Leave(MM, n) == IF n = 0 THEN MM
+                              ELSE LET cc == MM.tk[t].ctxs
+                                       c == cc[Len(cc)]
+                                       Ma == Ev(MM, [e |-> "Exit", a |-> c, t |-> t])
+                                       Mb == [Ma EXCEPT !.tk[t].ctxs = SubSeq(cc, 1, Len(cc) - 1)]
+                                   IN Leave(IF CtxType(c) = "nonasync" THEN Mb ELSE CtxPause(Mb, c), n - 1)
+              M1b == Leave(M1, leave)
+              M2 == Ev([M1b EXCEPT !.running = @ \cup {t}], sb)
               M3 == IF k = 1 THEN M2
                     ELSE [M2 EXCEPT !.tk[t].recvs = Append(@, IF isExc THEN Val("caught", v.n, <<>>) ELSE v)]
           IN RunOps(M3, SetTop(F, FBody(t, k, 1, Top(F).d)), t, k, 1)
@@ -274,16 +286,17 @@ RunOps(M, F, t, k, i) ==
     CASE o.o = "enter" ->
            LET c == o.a
                M1 == Ev(M, [e |-> "Enter", a |-> c, t |-> t])
-               M2 == [M1 EXCEPT !.tk[t].ctxs = Append(@, c)]
+               M2 == [M1 EXCEPT !.tk[t].ctxs = Append(@, c), !.cx = Upd(@, c, k)]      \* cx[c]: the segment in which c was entered
                M3 == IF CtxType(c) = "nonasync" THEN M2 ELSE CtxResume(M2, c)
            IN RunOps(M3, F, t, k, i + 1)
       [] o.o = "exit" ->
-           LET cs == M.tk[t].ctxs
-               c == cs[Len(cs)]
-               M1 == Ev(M, [e |-> "Exit", a |-> c, t |-> t])
-               M2 == [M1 EXCEPT !.tk[t].ctxs = SubSeq(cs, 1, Len(cs) - 1)]
-               M3 == IF CtxType(c) = "nonasync" THEN M2 ELSE CtxPause(M2, c)
-           IN RunOps(M3, F, t, k, i + 1)
+           LET cs == M.tk[t].ctxs IN
+           IF cs = <<>> \/ cs[Len(cs)] # o.a THEN RunOps(M, F, t, k, i + 1)     \* already left by a caught exception
+           ELSE LET c == cs[Len(cs)]
+                    M1 == Ev(M, [e |-> "Exit", a |-> c, t |-> t])
+                    M2 == [M1 EXCEPT !.tk[t].ctxs = SubSeq(cs, 1, Len(cs) - 1)]
+                    M3 == IF CtxType(c) = "nonasync" THEN M2 ELSE CtxPause(M2, c)
+                IN RunOps(M3, F, t, k, i + 1)
       [] o.o = "read" ->
            LET x == IF o.a < 100 THEN o.a ELSE P.nvars + (o.a - 100)
            IN RunOps(Ev(M, [e |-> "Read", t |-> t, a |-> o.a, v |-> VC(M.sv[x])]), F, t, k, i + 1)
